@@ -23,6 +23,7 @@ def replay(mod, path, shard_name=None, raw_case=False):
         case, shard_name = data, shard_name
     else:
         case, shard_name = data["case"], shard_name or data["shard"]
+    shard_name = (shard_name or "").removeprefix("cg:")  # a coverage-guided campaign uses its base shard's check
     shards = mod.shards("quick") + mod.shards("thorough")
     shard = next((s for s in shards if s.name == shard_name), None)
     if shard is None:
